@@ -11,8 +11,8 @@ Definition obs (o : outcome) : option (str * signal) :=
   match o with Done _ out s => Some (out, s) | Fuel => None end.
 
 (* the copied context is a function of the ROOT globals, the namespace and the disabled tags only *)
-Lemma copy_depends_on_base c1 c2 na dis : base c1 = base c2 -> copy c1 na dis = copy c2 na dis.
-Proof. intro H. unfold copy. rewrite H. reflexivity. Qed.
+Lemma copy_depends_on_base c1 c2 na dis : base c1 = base c2 -> cfg c1 = cfg c2 -> copy c1 na dis = copy c2 na dis.
+Proof. intros H G. unfold copy. rewrite H, G. reflexivity. Qed.
 
 Lemma obs_back c (o : outcome) :
   obs (match o with Fuel => Fuel | Done _ out s => Done c out s end) = obs o.
@@ -26,15 +26,15 @@ Proof. intro H. destruct r; simpl; auto. Qed.
    bound variable evaluate alike, get the same text and the same completion from the partial — whatever their
    block scopes, assigned and captured variables, counters, macros and loop state are *)
 Theorem render_isolated f E name var args c1 c2 :
-  base c1 = base c2 ->
+  base c1 = base c2 -> cfg c1 = cfg c2 ->
   eval_kwargs (e_uk E) c1 args [] = eval_kwargs (e_uk E) c2 args [] ->
   (forall p lp a, var = Some (p, lp, a) -> eval_path (e_uk E) c1 p = eval_path (e_uk E) c2 p) ->
   obs (exec (S f) E (NRender name var args) c1) = obs (exec (S f) E (NRender name var args) c2).
 Proof.
-  intros Hb Ha Hv. cbn [exec]. unfold exec_step.
+  intros Hb Hg Ha Hv. cbn [exec]. unfold exec_step.
   destruct (alookup name (e_loader E)) as [body|]; [|reflexivity].
   rewrite Ha. apply obs_lift. intro na.
-  rewrite (copy_depends_on_base c1 c2 na [TInclude] Hb).
+  rewrite (copy_depends_on_base c1 c2 na [TInclude] Hb Hg).
   destruct var as [[[p lp] alias]|].
   - rewrite (Hv p lp alias eq_refl). apply obs_lift. intro v.
     destruct (if lp then arraylike (e_uk E) v else ANot); try reflexivity; rewrite !obs_back; reflexivity.
@@ -72,10 +72,10 @@ Qed.
 
 (* the purest form: with literal arguments the partial's output is a function of the root globals alone *)
 Corollary render_ignores_caller_locals f E name args c1 c2 :
-  base c1 = base c2 -> literal_args args ->
+  base c1 = base c2 -> cfg c1 = cfg c2 -> literal_args args ->
   obs (exec (S f) E (NRender name None args) c1) = obs (exec (S f) E (NRender name None args) c2).
 Proof.
-  intros Hb Hl. apply render_isolated; [exact Hb|apply eval_kwargs_literal; exact Hl|discriminate].
+  intros Hb Hg Hl. apply render_isolated; [exact Hb|exact Hg|apply eval_kwargs_literal; exact Hl|discriminate].
 Qed.
 
 (* what a partial can resolve when it starts: its arguments, then the root globals, then now/today — nothing else *)
@@ -90,16 +90,16 @@ Qed.
 
 (* ---- macros ---- *)
 Theorem call_isolated f E name kws c1 c2 :
-  base c1 = base c2 ->
+  base c1 = base c2 -> cfg c1 = cfg c2 ->
   alookup name (macros c1) = alookup name (macros c2) ->
   (forall ps body, alookup name (macros c1) = Some (ps, body) ->
      macro_namespace (e_uk E) c1 ps kws = macro_namespace (e_uk E) c2 ps kws) ->
   obs (exec (S f) E (NCall name kws) c1) = obs (exec (S f) E (NCall name kws) c2).
 Proof.
-  intros Hb Hm Hn. cbn [exec]. unfold exec_step. rewrite <- Hm.
+  intros Hb Hg Hm Hn. cbn [exec]. unfold exec_step. rewrite <- Hm.
   destruct (alookup name (macros c1)) as [[ps body]|] eqn:Hl.
   - rewrite (Hn ps body eq_refl). apply obs_lift. intro nm.
-    rewrite (copy_depends_on_base c1 c2 nm [TInclude; TBlock] Hb). rewrite !obs_back. reflexivity.
+    rewrite (copy_depends_on_base c1 c2 nm [TInclude; TBlock] Hb Hg). rewrite !obs_back. reflexivity.
   - apply obs_lift. intro t. reflexivity.
 Qed.
 
@@ -142,12 +142,12 @@ Lemma literal_args_filter g kws : literal_args kws -> literal_args (filter g kws
 Proof. intros H k e Hin. apply filter_In in Hin. destruct Hin as [Hin _]. apply (H k e Hin). Qed.
 
 Corollary call_ignores_caller_locals f E name kws c1 c2 :
-  base c1 = base c2 -> alookup name (macros c1) = alookup name (macros c2) ->
+  base c1 = base c2 -> cfg c1 = cfg c2 -> alookup name (macros c1) = alookup name (macros c2) ->
   literal_args kws ->
   (forall ps body, alookup name (macros c1) = Some (ps, body) -> literal_params ps) ->
   obs (exec (S f) E (NCall name kws) c1) = obs (exec (S f) E (NCall name kws) c2).
 Proof.
-  intros Hb Hm Hk Hp. apply call_isolated; [exact Hb|exact Hm|].
+  intros Hb Hg Hm Hk Hp. apply call_isolated; [exact Hb|exact Hg|exact Hm|].
   intros ps body Hl. unfold macro_namespace.
   rewrite (eval_kwargs_literal (e_uk E) c1 c2 _ [] (literal_args_filter _ _ Hk)).
   destruct (eval_kwargs (e_uk E) c2 _ []); simpl; try reflexivity.
@@ -238,7 +238,7 @@ Proof.
 Qed.
 
 (* ---- the recorded defect: before the repair a nested partial also saw the ENCLOSING partial's arguments ---- *)
-Definition ctx0 : ctx := Ctx [] [] [[]] [[]] [] [] [].
+Definition ctx0 : ctx := Ctx [] [] [[]] [[]] [] [] [] None default_flags.
 Definition kx : str := slit "x".
 
 (* full statement, old code: what a nested partial resolves depends only on its own arguments and the root globals *)
@@ -289,7 +289,7 @@ Proof. unfold render_loop. apply loop_items_each_item. Qed.
 (* witness of the repaired defect: with one shared context the second item saw what the first one assigned *)
 Definition leak_env : env :=
   Env MStrict UDefault [(slit "p", [NText (slit "["); NOut (FPlain (EPath (Path (slit "seen") [])) []); NText (slit "]");
-                                    NAssign (slit "seen") (FPlain (ELit (LInt 1)) []); NIncr (slit "n")])].
+                                    NAssign (slit "seen") (FPlain (ELit (LInt 1)) []); NIncr (slit "n")])] no_filters.
 Definition leak_render1 : ctx -> outcome :=
   run_template MStrict true false (exec 5 leak_env)
     (match alookup (slit "p") (e_loader leak_env) with Some b => b | None => [] end).
@@ -304,3 +304,77 @@ Proof.
   intro H. specialize (H leak_render1 (slit "p") [] [VInt 1; VInt 2] (copy ctx0 [] [TInclude])).
   vm_compute in H. discriminate.
 Qed.
+
+(* ---- overridden inheritance blocks: render / call from inside a block-scoped copy ---- *)
+(* the block-scoped copy keeps the ROOT globals (and the flags) of the template being extended ... *)
+Lemma copy_block_keeps_base c : base (copy_block c) = base c /\ cfg (copy_block c) = cfg c.
+Proof. split; reflexivity. Qed.
+
+(* ... so a partial rendered from inside an overridden block starts from exactly what a partial rendered at the top
+   level of the base template starts from: none of the base template's assigned, captured or block-scoped names *)
+Theorem render_in_block_sees_only_arguments_and_globals c na dis x :
+  resolve (copy (copy_block c) na dis) x = first_hit x (na :: base c ++ [builtin_ns]).
+Proof. apply (partial_sees_only_arguments_and_globals (copy_block c) na dis x). Qed.
+
+(* C15_render_isolated through blocks: with arguments that evaluate alike (e.g. literals) the render tag prints from
+   inside the block-scoped copy what it prints in the context of the template being extended *)
+Theorem render_isolated_through_block f E name var args c :
+  eval_kwargs (e_uk E) (copy_block c) args [] = eval_kwargs (e_uk E) c args [] ->
+  (forall p lp a, var = Some (p, lp, a) -> eval_path (e_uk E) (copy_block c) p = eval_path (e_uk E) c p) ->
+  obs (exec (S f) E (NRender name var args) (copy_block c)) = obs (exec (S f) E (NRender name var args) c).
+Proof. intros Ha Hv. apply render_isolated; try reflexivity; assumption. Qed.
+
+(* the whole block tag: an overriding block whose body is a render tag with literal arguments prints what that render
+   tag prints at the top level, whatever the base template bound around the block *)
+Theorem block_render_isolated f E bname own ovs name args c :
+  is_disabled TBlock c = false -> overrides c = Some ovs ->
+  alookup bname ovs = Some [NRender name None args] -> literal_args args ->
+  obs (exec (S (S f)) E (NBlock bname own) c) =
+  match obs (exec (S f) E (NRender name None args) c) with
+  | Some (out, Normal) => Some (out ++ [], Normal)
+  | r => r
+  end.
+Proof.
+  intros Hd Ho Hl Hlit. rewrite exec_S. unfold exec_step at 1. rewrite Hd, Ho, Hl. cbn [seq_nodes].
+  pose proof (render_ignores_caller_locals f E name args (copy_block c) c eq_refl eq_refl Hlit) as H.
+  destruct (exec (S f) E (NRender name None args) (copy_block c)) as [c1 o1 s1|];
+    destruct (exec (S f) E (NRender name None args) c) as [c2 o2 s2|]; simpl in H; try discriminate; [|reflexivity].
+  inversion H; subst. destruct s2; reflexivity.
+Qed.
+
+(* the same for a macro call *)
+Theorem call_isolated_through_block f E name kws c :
+  alookup name (macros (copy_block c)) = alookup name (macros c) ->
+  (forall ps body, alookup name (macros (copy_block c)) = Some (ps, body) ->
+     macro_namespace (e_uk E) (copy_block c) ps kws = macro_namespace (e_uk E) c ps kws) ->
+  obs (exec (S f) E (NCall name kws) (copy_block c)) = obs (exec (S f) E (NCall name kws) c).
+Proof. intros Hm Hn. apply call_isolated; try reflexivity; assumption. Qed.
+
+(* what the block assigns, captures or counts stays in the copy: the context of the template being extended is
+   returned as it was *)
+Theorem block_leaves_base_template f E bname own ovs c c' o s :
+  overrides c = Some ovs -> exec f E (NBlock bname own) c = Done c' o s -> c' = c.
+Proof.
+  intro Ho. destruct f as [|f]; [discriminate|]. rewrite exec_S. unfold exec_step. rewrite Ho.
+  destruct (is_disabled TBlock c); [intro H; inversion H; reflexivity|].
+  match goal with |- match ?X with _ => _ end = _ -> _ => destruct X; [|discriminate] end. intro H; inversion H; reflexivity.
+Qed.
+
+(* witness for the seeded variant (base_globals not propagated in the block-scoped branch): a partial rendered from
+   inside the block then resolved the base template's local variables *)
+Definition render_in_block_isolated_old : Prop :=
+  forall c na dis x, resolve (copy (copy_block_old c) na dis) x = first_hit x (na :: base c ++ [builtin_ns]).
+
+Theorem render_in_block_isolated_old_refuted : ~ render_in_block_isolated_old.
+Proof.
+  intro H. specialize (H (assign ctx0 kx (VStr (slit "LEAK"))) [] [TInclude] kx). vm_compute in H. discriminate.
+Qed.
+
+(* include stays disabled inside an inheritance block rendered within a partial or a macro body *)
+Theorem block_keeps_include_disabled c : is_disabled TInclude (copy_block c) = is_disabled TInclude c.
+Proof. reflexivity. Qed.
+
+(* witness of the repaired defect: the block-scoped copy used to start with NO disabled tags *)
+Theorem block_keeps_include_disabled_old_refuted :
+  ~ (forall c, is_disabled TInclude (copy_block_enabled_old c) = is_disabled TInclude c).
+Proof. intro H. specialize (H (copy ctx0 [] [TInclude])). vm_compute in H. discriminate. Qed.
